@@ -1,6 +1,6 @@
 import ExaModel.Lemmas.ReloadCache
 set_option linter.unusedSimpArgs false
-/-! What a successful reload does to ONE neighbor's RIB and session (M-Rib level): parse-time
+/-! What a successful reload does to ONE neighbor's RIB and session (M-Rib level): commit-time
     insertion, then `replace_reload` (reconfigure) or session reset + `replace_restart`
     (reestablish), composed with the M-Rib invariants `Good` (session up) and `Down`. -/
 namespace Exa.Reload
